@@ -210,9 +210,9 @@ func (mT *provider) Shutdown() error {
 
 	if mT.persist != nil {
 		var res []*mqttp.Publish
-		// [MQTT-3.3.1-5]
-		mT.retainSearch("#", &res)
-		mT.retainSearch("/#", &res)
+		// everything that is retained, whatever its first level: no filter reaches all of it ("#"
+		// matches neither a first level that begins with '$' nor an empty one)
+		mT.root.allRetained(&res)
 
 		var encoded []*vlpersistence.PersistedPacket
 
